@@ -166,6 +166,7 @@ def function_locals(node):
 
 
 _has_yield_cache = {}
+_globals_cache = {}
 
 
 def has_yield(node):
@@ -926,9 +927,15 @@ class Interp:
         frame = Frame(
             f.module, outer=f.closure, fi=fi, locals_set=function_locals(node), cls=None
         )
-        for st in ast.walk(node):
-            if isinstance(st, ast.Global):
-                frame.globals_decl.update(st.names)
+        gd = _globals_cache.get(id(node))
+        if gd is None:
+            gd = set()
+            for st in ast.walk(node):
+                if isinstance(st, ast.Global):
+                    gd.update(st.names)
+            _globals_cache[id(node)] = gd
+        if gd:
+            frame.globals_decl.update(gd)
         self.bind_args(node, f, args, kwargs, frame)
         self.P.call_depth += 1
         try:
@@ -1502,6 +1509,16 @@ class Interp:
         if items is None:
             self.raise_("TypeError", "argument is not iterable")
         alts = []
+        if isinstance(x, SStr) and x.py is not None:
+            xp = x.py
+            rest = []
+            for y in items:
+                if isinstance(y, SStr) and y.py is not None:
+                    if y.py == xp:
+                        return True
+                else:
+                    rest.append(y)
+            items = rest
         for y in items:
             e = self.equal(y, x)
             if is_true(e):
